@@ -707,10 +707,13 @@ func enumerateLegacy(maxLen int, r *prng.R, emit func(proto.Case)) {
 }
 
 var keyPool = []string{"x", "a", "b", "x-lunar", "X", "a-b", "content-type", "é"}
-var valPool = []string{"1", "2", "", "v", "a b", "k=v;w|z", "100%", "é", "http://h/p?q", "t:1:2"}
-var unsafeKeys = []string{"a:b", "k\nz", ":", "", "bad name", "k\r", "x(y)"}
+// values are BYTE strings: valid UTF-8 (é, €), ISO-8859-1 text, lone continuation byte, truncated 2/3/4-byte
+// sequences, overlong form, 0xC0/0xFF/0xFE, NBSP byte
+var valPool = []string{"1", "2", "", "v", "a b", "k=v;w|z", "100%", "é", "http://h/p?q", "t:1:2",
+	"r\xe9sum\xe9.pdf", "\x80", "\xc3", "\xc0\xaf", "\xff\xfe", "\xe2\x82", "\xf0\x9f\x98", "€", "a\xa0b", "x\xe9\ny", "\xc0"}
+var unsafeKeys = []string{"a:b", "k\nz", ":", "", "bad name", "k\r", "x(y)", "k\xe9", "\xff", "\xc3\x28", "a\x80"}
 var unsafeVals = []string{"v\ninjected:1", "\n", "a\n\nb", "v\r\nx:1", "\r"}
-var strPool = []string{"", "", "h1", "/p", "q=1&r=2", "body", "a b\tc", "%e", "_", "x|y;z"}
+var strPool = []string{"", "", "h1", "/p", "q=1&r=2", "body", "a b\tc", "%e", "_", "x|y;z", "b\xe9", "\xc0\xaf", "\xff", "caf\xc3\xa9", "\xe2\x82"}
 var statuses = []int{0, 200, 404, 429, 503, -1}
 
 func genHdrs(r *prng.R, unsafePct int) string {
